@@ -345,6 +345,15 @@ func propC08(w *World, r *Report) {
 			r.Check(bad == nil, "N4", fmt.Sprintf("%s: the raw value of pixel read at %s is used only by the temp-thresh clamp", fn.Name(), w.InstrPos(u)), pos, detail)
 		}
 	}
+	// ... and every interior pixel's result is stored on every pass (a skipped store leaves the value computed from an
+	// earlier frame pair in the re-used slot: sub-threshold values would then decide what is kept)
+	for _, fn := range []*ssa.Function{k.diffAbs, k.diffWarm} {
+		for _, a := range elemAccesses(fn) {
+			if a.IsStore {
+				checkPixelStoredOnEveryIteration(w, r, e, fn, a, d.leaf("tempThresh"), "N4")
+			}
+		}
+	}
 	// N5
 	for _, fn := range []*ssa.Function{k.updateBg, k.calcThresh} {
 		for _, b := range detectBlocks(w, d, k) {
@@ -585,33 +594,7 @@ func propC07(w *World, r *Report) {
 			got := e.termOf(a.Val).String()
 			r.Check(got == kk.want, "K2", kk.fn.Name()+": stored difference is "+kk.what, w.InstrPos(a.Instr), got)
 			r.Check(a.Frame == ssa.Value(kk.fn.Params[3]), "K2", kk.fn.Name()+": result goes to the third frame argument at the same position", w.InstrPos(a.Instr), frameName(e, a.Frame))
-			// the difference is stored for EVERY interior pixel: the diff frames are re-used ring slots, a pixel that is
-			// skipped keeps the difference of two frames ago
-			var dataGuards []string
-			for _, g := range e.guardsOf(a.Instr.Block()) {
-				gs := g.String()
-				if isRangeLoopGuard(g) || g.If.Parent() != kk.fn {
-					continue
-				}
-				if strings.Contains(gs, "cptvframe.Frame.Pix") || strings.Contains(gs, T) {
-					dataGuards = append(dataGuards, gs)
-				}
-			}
-			// ... and no path through the loop body comes round to the next pixel without passing the store (a && b skips
-			// have no single dominating guard)
-			skip := ""
-			if ph, ok := a.Col.(*ssa.Phi); ok {
-				h := ph.Block()
-				for _, body := range h.Succs {
-					if !h.Dominates(body) || !reaches(body, h) {
-						continue // the exit edge
-					}
-					if by, at := canBypass(body, a.Instr.Block(), h); by && at == h {
-						skip = "the loop continues with the next pixel without storing (via block " + fmt.Sprint(at.Index) + ")"
-					}
-				}
-			}
-			r.Check(len(dataGuards) == 0 && skip == "", "K2", kk.fn.Name()+": the difference is stored for every interior pixel (no data-dependent skip)", w.InstrPos(a.Instr), strings.Join(dataGuards, " ; ")+skip)
+			checkPixelStoredOnEveryIteration(w, r, e, kk.fn, a, T, "K2")
 		}
 	}
 	checkThresholdInit(w, r, d, k, "K2")
@@ -1264,4 +1247,37 @@ func checkThresholdInit(w *World, r *Report, d *detInfo, k *kernels, rule string
 func isParamOfFamily(v ssa.Value) bool {
 	p, ok := v.(*ssa.Parameter)
 	return ok && typeIs(p.Type(), "github.com/TheCacophonyProject/go-cptv/cptvframe", "Frame")
+}
+
+// checkPixelStoredOnEveryIteration: the kernel stores its result for EVERY interior pixel - the diff frames are re-used
+// ring slots, a pixel that is skipped keeps the difference of two frames ago (and with it the influence of whatever the
+// skip test looked at, e.g. sub-threshold values).
+func checkPixelStoredOnEveryIteration(w *World, r *Report, e *termEnv, fn *ssa.Function, a pixAccess, T string, rule string) {
+			// the difference is stored for EVERY interior pixel: the diff frames are re-used ring slots, a pixel that is
+			// skipped keeps the difference of two frames ago
+			var dataGuards []string
+			for _, g := range e.guardsOf(a.Instr.Block()) {
+				gs := g.String()
+				if isRangeLoopGuard(g) || g.If.Parent() != fn {
+					continue
+				}
+				if strings.Contains(gs, "cptvframe.Frame.Pix") || strings.Contains(gs, T) {
+					dataGuards = append(dataGuards, gs)
+				}
+			}
+			// ... and no path through the loop body comes round to the next pixel without passing the store (a && b skips
+			// have no single dominating guard)
+			skip := ""
+			if ph, ok := a.Col.(*ssa.Phi); ok {
+				h := ph.Block()
+				for _, body := range h.Succs {
+					if !h.Dominates(body) || !reaches(body, h) {
+						continue // the exit edge
+					}
+					if by, at := canBypass(body, a.Instr.Block(), h); by && at == h {
+						skip = "the loop continues with the next pixel without storing (via block " + fmt.Sprint(at.Index) + ")"
+					}
+				}
+			}
+			r.Check(len(dataGuards) == 0 && skip == "", rule, fn.Name()+": the difference is stored for every interior pixel (no data-dependent skip)", w.InstrPos(a.Instr), strings.Join(dataGuards, " ; ")+skip)
 }
